@@ -172,7 +172,27 @@ def classify(exc):
     return "Other:" + type(exc).__name__
 
 
-def run_case(path, vname, var, settings_bits, canary_secret, shared=None):
+CARRIERS = {
+    # not-well-formed carriers of a hostile document: the policy must still see the DOCTYPE / entity declarations, or the
+    # document must be refused as a syntax error -- a lenient re-parse must not become a way around the policy
+    "junk-prefix": lambda t: "PHP Notice:  Undefined index: q in /srv/ws.php on line 7\n" + t,
+    "broken-subset": lambda t: t.replace("]>", "<!BROKEN>]>", 1) if "]>" in t else None,
+    "trailing-junk": lambda t: t + "trailing<x>",
+    "unclosed": lambda t: "<unclosed></".join(t.rsplit("</", 1)),
+}
+
+
+def libxml2_tree(text, strict):
+    """does libxml2 yield a tree for this text under the recover mode zeep chooses (DocInfo.wellFormed of the model)"""
+    from lxml import etree
+    try:
+        r = etree.fromstring(text.encode(), etree.XMLParser(recover=not strict, resolve_entities=False, remove_comments=True))
+        return r is not None
+    except etree.XMLSyntaxError:
+        return False
+
+
+def run_case(path, vname, var, settings_bits, canary_secret, shared=None, carrier=None, texts=None):
     """returns (outcome class, evil urls requested, exposed?).  `shared` (a dict) carries a transport
     (and, for reply paths, a client) from an earlier load so that sequences share state."""
     z = _zeep()
@@ -181,26 +201,36 @@ def run_case(path, vname, var, settings_bits, canary_secret, shared=None):
     st = z.settings.Settings(forbid_dtd=fd, forbid_entities=fe, forbid_external=fx, strict=strict, xml_huge_tree=huge)
     benign = dict(prolog="", ref="plain")
     hostile = dict(prolog=prolog, ref=ref)
+
+    def wrap(text):
+        if carrier:
+            text = CARRIERS[carrier](text)
+        if texts is not None:
+            texts.append(text)
+        return text
     sub = dict(wsdl_import="", xsd_import="", xsd_include="", encns="", enc_use="")
     docs = {}
     if path == "wsdl:import":
         sub["wsdl_import"] = '<import namespace="urn:other" location="sub.wsdl"/>'
-        docs["sub.wsdl"] = SUBWSDL % hostile
+        docs["sub.wsdl"] = wrap(SUBWSDL % hostile)
     elif path == "xsd:import":
         sub["xsd_import"] = '<xsd:import namespace="urn:imp" schemaLocation="imp.xsd"/>'
-        docs["imp.xsd"] = SUBXSD % dict(hostile, tns="urn:imp", n="1")
+        docs["imp.xsd"] = wrap(SUBXSD % dict(hostile, tns="urn:imp", n="1"))
     elif path == "xsd:include":
         sub["xsd_include"] = '<xsd:include schemaLocation="inc.xsd"/>'
-        docs["inc.xsd"] = SUBXSD % dict(hostile, tns="urn:t", n="2")
+        docs["inc.xsd"] = wrap(SUBXSD % dict(hostile, tns="urn:t", n="2"))
     elif path == "auto-import":
         sub["encns"] = 'xmlns:enc="%s"' % ENC
         sub["enc_use"] = '<xsd:element name="arr" type="enc:Array"/>'
         docs["enc.xsd"] = SUBXSD % dict(hostile, tns=ENC, n="3")
         docs["enc.xsd"] = docs["enc.xsd"].replace('<xsd:element name="sub3" type="xsd:string"/>',
                                                   '<xsd:complexType name="Array"><xsd:sequence><xsd:any minOccurs="0" maxOccurs="unbounded"/></xsd:sequence></xsd:complexType>')
+        docs["enc.xsd"] = wrap(docs["enc.xsd"])
     rootsub = dict(sub)
     rootsub.update(hostile if path == "root-wsdl" else benign)
     docs["root.wsdl"] = ROOT % rootsub
+    if path == "root-wsdl":
+        docs["root.wsdl"] = wrap(docs["root.wsdl"])
     reply_doc = {"xml": None}
 
     def reply():
@@ -234,15 +264,15 @@ def run_case(path, vname, var, settings_bits, canary_secret, shared=None):
             ctxm = contextlib.nullcontext()
         ctxm.__enter__()
         if path in ("soap-reply", "soap-multipart-root"):
-            reply_doc["xml"] = ENVELOPE % hostile
+            reply_doc["xml"] = wrap(ENVELOPE % hostile)
             r = client.bind("svc", "p11").op("x")
             result_repr = repr(r) + repr(getattr(r, "root", "")) + repr(getattr(r, "attachments", ""))
         elif path == "http-mimexml-reply":
-            reply_doc["xml"] = MIMEXML % hostile
+            reply_doc["xml"] = wrap(MIMEXML % hostile)
             r = client.bind("svc", "ph").op(p="x")
             result_repr = repr(r)
         elif path == "http-mimecontent-reply":
-            reply_doc["xml"] = MIMEXML % hostile
+            reply_doc["xml"] = wrap(MIMEXML % hostile)
             r = client.bind("svc", "pc").op(p="x")
             result_repr = repr(r)
         else:
@@ -275,6 +305,54 @@ def expected_property(var, bits):
     if not has_dt:
         return "accept"
     return "any"
+
+
+def malformed_cases(ctx, res, vs, allbits, secret):
+    """hostile documents in a carrier that is not well-formed, on every ingress path"""
+    cases = []
+    n = 0
+    for path in PATHS:
+        for vname, var in vs.items():
+            if vname == "benign":
+                continue
+            for cname, fn in CARRIERS.items():
+                if fn(var[0] + "<r/>") is None:
+                    continue
+                for bits in allbits:
+                    fd, fe, fx, strict, huge = bits
+                    if ctx.tier == "quick" and ctx.budget <= 1 and (fx, huge) != ((n % 2 == 0), (n // 2 % 2 == 0)):
+                        continue          # forbid_external / xml_huge_tree rotated, not crossed, in the quick tier
+                    cases.append((path, vname, var, cname, bits))
+                n += 1
+    runs = []
+    for path, vname, var, cname, bits in cases:
+        texts = []
+        outcome, evil, exposed = run_case(path, vname, var, bits, secret, carrier=cname, texts=texts)
+        runs.append((outcome, evil, exposed, libxml2_tree(texts[-1], bits[3]) if texts else True))
+    mops = [{"op": "loader.policy", "settings": list(bits), "doc": [wf, var[2], var[3]]}
+            for (_, _, var, _, bits), (_, _, _, wf) in zip(cases, runs)]
+    mout = ctx.model.run(mops) if ctx.model else [None] * len(cases)
+    for (path, vname, var, cname, bits), (outcome, evil, exposed, wf), mo in zip(cases, runs, mout):
+        res.case(key=("malformed", path, vname, cname, bits), nontrivial=True)
+        res.count("carrier:" + cname)
+        res.count("outcome:" + outcome)
+        case = dict(path=path, variant=vname, carrier=cname,
+                    settings=dict(zip(("forbid_dtd", "forbid_entities", "forbid_external", "strict", "xml_huge_tree"), bits)))
+        exp = expected_property(var, bits)
+        what = None
+        if evil:
+            what = "external entity / DTD target was requested: %s" % evil[:2]
+        elif exposed:
+            what = "content of an external resource reached the caller"
+        elif exp == "reject" and outcome == "accepted":
+            what = "hostile document in a not-well-formed carrier accepted although the policy forbids it"
+        if what:
+            res.failures.append(dict(what=what, case=case, outcome=outcome))
+        elif outcome.startswith("Other:") and mo is not None and mo.get("ok") == "accepted":
+            res.count("recovered-tree-refused-downstream")       # the recovered tree passed the policy and was refused later (e.g. not a schema)
+        elif mo is not None and mo.get("ok") != outcome:
+            res.disagreements.append(dict(relation="Loader.policy vs zeep (outcome class, not-well-formed carrier)", case=case,
+                                          model=mo.get("ok"), impl=outcome, libxml2_yields_tree=wf))
 
 
 def run(ctx):
@@ -330,6 +408,7 @@ def run(ctx):
                 m = mo.get("ok")
                 if m != outcome:
                     res.disagreements.append(dict(relation="Loader.policy vs zeep (outcome class)", case=case, model=m, impl=outcome))
+        malformed_cases(ctx, res, vs, allbits, secret)
         # sequences on shared state: the same URL / the same client under different settings, one after the
         # other (each load must be judged under the settings current at that moment)
         LEN = (False, False, True, True, False)
@@ -360,7 +439,7 @@ def run(ctx):
     res.exhaustive = True
     res.programs = len(PATHS)
     res.rule = ("9 ingress paths x 12 document variants (benign, DOCTYPE only, internal used/unused, parameter, external SYSTEM http/file, "
-                "PUBLIC, external subset http/file, nested expansion, external parameter entity) x all 32 combinations of the five settings; plus two- and three-step sequences (lenient/strict alternations) on a shared transport (document paths: a new client per step) or a shared client under client.settings(...) overrides (reply paths). distinct = distinct (path, variant, settings); non-trivial = not the benign variant")
+                "PUBLIC, external subset http/file, nested expansion, external parameter entity) x all 32 combinations of the five settings; every hostile variant again inside four not-well-formed carriers (junk before the prolog, broken internal subset, trailing junk, unclosed element) on every path; plus two- and three-step sequences (lenient/strict alternations) on a shared transport (document paths: a new client per step) or a shared client under client.settings(...) overrides (reply paths). distinct = distinct (path, variant, settings); non-trivial = not the benign variant")
     return res
 
 
@@ -382,11 +461,11 @@ def replay(ctx, payload):
         var = variants(canary)[case["variant"]]
         s = case["settings"]
         bits = (s["forbid_dtd"], s["forbid_entities"], s["forbid_external"], s["strict"], s["xml_huge_tree"])
-        outcome, evil, exposed = run_case(case["path"], case["variant"], var, bits, "CANARY-SECRET-R")
+        outcome, evil, exposed = run_case(case["path"], case["variant"], var, bits, "CANARY-SECRET-R", carrier=case.get("carrier"))
     finally:
         shutil.rmtree(tmp, ignore_errors=True)
     exp = expected_property(var, bits)
-    ok = not evil and not exposed and not (exp == "reject" and outcome == "accepted") and not (exp == "accept" and outcome != "accepted")
+    ok = not evil and not exposed and not (exp == "reject" and outcome == "accepted") and not (exp == "accept" and outcome != "accepted" and not case.get("carrier"))
     return ok, f"outcome={outcome} expected={exp} evil={evil} exposed={exposed}"
 
 
